@@ -72,7 +72,7 @@ theorem error_verbatim (cfg : HCfg) (r : ReqIn) (kind : String) (c m : Str) (res
   rw [process_invoke _ hf hb (by rw [normReq_ok r hp]; exact hk), normReq_ok r hp]
   have ha : act cfg r (seen0 kind r) (.error (.res c m)) =
       .cont { replied := true, effs := [.seen (encSeen kind r), .pub replySubj (respError c m none)] } := by
-    simp [act, errVParts, reply, seen0, emit, metaOf, Meta.render]
+    simp [act, errVParts, errMeta, reply, seen0, emit, metaOf, Meta.render]
   simp only [runScript, ha]
   rw [responses_finish_replied _ _ _ _ rfl]
   exact responses_seen_reply _ _ (by simp)
@@ -84,7 +84,7 @@ theorem panic_error_verbatim (cfg : HCfg) (r : ReqIn) (kind : String) (c m : Str
   have hb : r.payload ≠ .bad := by simp [hp]
   rw [process_invoke _ hf hb (by rw [normReq_ok r hp]; exact hk), normReq_ok r hp]
   simp only [runScript, act, finish]
-  simp only [recoverArm, seen0, errVParts, errorReply, emit, metaOf, Meta.render]
+  simp only [recoverArm, seen0, errVParts, errMeta, errorReply, emit, metaOf, Meta.render]
   exact responses_seen_reply _ _ (by simp)
 
 /-- any other panic before a reply becomes `system.internalError` -/
@@ -100,6 +100,7 @@ theorem other_panic_internal (cfg : HCfg) (r : ReqIn) (kind : String) (p : Panic
     cases e with
     | res c m => exact absurd rfl (hne c m)
     | go m => exact ⟨_, responses_seen_reply _ _ (by simp)⟩
+    | resBad => exact ⟨_, responses_seen_reply _ _ (by simp)⟩
   | lib => exact ⟨_, responses_seen_reply _ _ (by simp)⟩
   | str m => exact ⟨_, responses_seen_reply _ _ (by simp)⟩
   | other m => exact ⟨_, responses_seen_reply _ _ (by simp)⟩
